@@ -12,6 +12,7 @@ C04 — No data races: what happened before fulfilment is visible after it.
    insufficient, so the list cannot silently grow or shrink.
 -/
 import YaclibModel.Mem.MP
+import YaclibModel.Mem.RC
 import YaclibModel.Model.OrdersCheck
 
 namespace Yaclib.Props.C04
@@ -32,6 +33,17 @@ theorem completion_visible {oW oR : Ord} {rmw : Bool} (hrel : oW.hasRel = true) 
 /-- the orders are necessary: weakening either side admits a racy execution -/
 theorem relaxed_publication_races : ∃ p, MP.PReach .rlx .acq false p ∧ p.s.race = true := MP.mp_relaxed_publication_races
 theorem relaxed_observation_races : ∃ p, MP.PReach .rel .rlx false p ∧ p.s.race = true := MP.mp_relaxed_observation_races
+
+/-- reference-counted objects are destroyed only after all other accesses: release on every decrement, acquire
+    (order or fence) by the holder that reaches zero; a holder that reads `count == 1` with acquire may treat the
+    object as exclusively its own (move the value out).  Any number of holders, any interleaving, stale reads. -/
+theorem free_after_all_accesses {oSub oG : Ord} {n : Nat} (hrel : oSub.hasRel = true) (hacq : oG.hasAcq = true)
+    {p : RC.PState} (h : RC.PReach oSub oG n p) : p.s.race = false := RC.rc_race_free hrel hacq h
+
+theorem relaxed_decrement_races : ∃ p, RC.PReach .rlx .acq 2 p ∧ p.s.race = true := RC.rc_relaxed_decrement_races
+
+/-- defect D9 of the pinned tree, at model level: the relaxed `GetRef()` guard admits a race (fixed by e536ea2) -/
+theorem relaxed_guard_races : ∃ p, RC.PReach .rel .rlx 2 p ∧ p.s.race = true := RC.rc_relaxed_guard_races
 
 /-! ### the tie: every atomic site of the source has a role and (except the known ones) a sufficient order -/
 
